@@ -144,18 +144,19 @@ Definition parse_reference_inline (fold : bytes -> bytes) (m : refmap) (content 
             let pos := pos + n in
             do r <- skip_line_end content pos;
             let '(pos1, ok) := r in
-            do fin <- (if ok then Ok (Some pos1)
+            (* `title.clear()` where the position is rewound: the title does not survive the rewind *)
+            do fin <- (if ok then Ok (Some (pos1, title))
                        else match title with
                             | [] => Ok None
                             | _ =>
                               do n2 <- skip_spaces (skipn beforetitle content);
                               do r2 <- skip_line_end content (beforetitle + n2);
                               let '(pos2, ok2) := r2 in
-                              if ok2 then Ok (Some pos2) else Ok None
+                              if ok2 then Ok (Some (pos2, @nil byte)) else Ok None
                             end);
             match fin with
             | None => Ok None
-            | Some posf =>
+            | Some (posf, title) =>
               let lab' := normalize_label fold lab true in
               match lab' with
               | [] => Ok (Some (posf, m))
